@@ -39,6 +39,7 @@ CONSTS = [
     ("QOS_MAX_RECEIVE_MSGS", "crates/net/src/xfer/dns_multiplexer.rs", r"^const QOS_MAX_RECEIVE_MSGS: usize = (\w+);", "multiplexer messages per poll"),
     ("MAX_KEY_TAG_COLLISIONS", "crates/net/src/dnssec/mod.rs", r"^const MAX_KEY_TAG_COLLISIONS: usize = (\w+);", ""),
     ("MAX_RRSIGS_PER_RRSET", "crates/net/src/dnssec/mod.rs", r"^const MAX_RRSIGS_PER_RRSET: usize = (\w+);", ""),
+    ("DEFAULT_MAX_REQUEST_DEPTH", "crates/proto/src/op/dns_request.rs", r"^\s*max_request_depth: (\d+),", "DnsRequestOptions::default().max_request_depth (DNSSEC validation depth backstop)"),
     ("CACHE_MAX_TTL", "crates/resolver/src/cache.rs", r"^pub const MAX_TTL: u32 = (\w+);", "resolver cache MAX_TTL"),
     ("MAX_CNAME_LOOKUPS", "crates/resolver/src/recursor/handle.rs", r"^const MAX_CNAME_LOOKUPS: u8 = (\w+);", "recursor"),
     ("RECURSOR_RECURSION_LIMIT_DEFAULT", "crates/resolver/src/recursor/mod.rs", r"^\s*recursion_limit: (\d+),", "RecursorOptions::default().recursion_limit"),
